@@ -5,7 +5,7 @@ import copy
 import io
 
 from checks import c01, c04
-from simkit import nodes, refdec, refenc, wire
+from simkit import nodes, refdec, refenc, wire, workload as W
 from simkit import terms as T
 from simkit.kernel import HarnessError
 
@@ -47,6 +47,11 @@ def generate(rng, run, tier):
         o = plan["opts"]
         if rng.random() < 0.5:
             o["max_prefix_table_size"] = 0
+            # whole IRIs are names now: the name table was sized for split IRIs, re-fit it to what one row needs
+            stmts_ = [T.from_json(i) for i in plan["items"] if i[0] != "ns"]
+            nss_ = [(i[1], i[2]) for i in plan["items"] if i[0] == "ns"]
+            need_n = W.max_needs(stmts_, nss_, prefix_enabled=False, graphs_type=o["physical_type"] == 3)[1]
+            o["max_name_table_size"] = max(o["max_name_table_size"], need_n, 8)
         else:
             o["max_datatype_table_size"] = 0
             plan["items"] = [strip_item(i) for i in plan["items"]]
